@@ -46,7 +46,7 @@ let llen l = list_len l 0
 let err_name (e : WireBase.err) : string =
   match e with
   | WireBase.EEOF -> "E:eof" | WireBase.EUEOF -> "E:ueof" | WireBase.ENonCanon -> "E:noncanon"
-  | WireBase.EStrTooLong -> "E:strtoolong" | WireBase.ETooMany -> "E:toomany" | WireBase.EHasTx -> "E:hastx"
+  | WireBase.EStrTooLong -> "E:strtoolong" | WireBase.EBytesTooLong -> "E:bytestoolong" | WireBase.ETooMany -> "E:toomany" | WireBase.EHasTx -> "E:hastx"
   | WireBase.EUALong -> "E:ualong" | WireBase.EPverLow -> "E:pverlow" | WireBase.EOversize -> "E:oversize"
   | WireBase.EWrongNet -> "E:wrongnet" | WireBase.EBadCmd -> "E:badcmd" | WireBase.EUnknownCmd -> "E:unknowncmd"
   | WireBase.ETypeMax -> "E:typemax" | WireBase.EChecksum -> "E:checksum"
